@@ -67,6 +67,17 @@ pub open spec fn fast_eq_ub(a: LuaType, b: LuaType) -> bool {
         || (a matches LuaType::Ref(l) && b matches LuaType::Ref(r) && l == r)
         || (a matches LuaType::Union(u) && b matches LuaType::Ref(r) && *u matches LuaUnionType::Nullable(LuaType::Ref(l)) && l == r)
         || (a is Generic && b is Generic)
+        // pairs a repaired head guard may accept (today it does not): equal template / self types
+        || (a is SelfInfer && b is SelfInfer) || (a is StrTplRef && b is StrTplRef) || (a is Conditional && b is Conditional) || (a is Mapped && b is Mapped)
+}
+/// `Arc<T> == Arc<T>` says equal (std: compares the inner values; vstd leaves it open, hence the explicit `obeys_eq_spec`)
+pub open spec fn arc_says_eq<T: PartialEq>(l: Arc<T>, r: Arc<T>) -> bool { <Arc<T> as PartialEqSpec>::obeys_eq_spec() && l.eq_spec(&r) }
+/// the four kinds of type no branch checker accepts against itself: they can only be accepted by the head guard
+pub open spec fn fast_eq_extra(a: LuaType, b: LuaType) -> bool {
+    (a is SelfInfer && b is SelfInfer)
+        || (a matches LuaType::StrTplRef(l) && b matches LuaType::StrTplRef(r) && arc_says_eq(l, r))
+        || (a matches LuaType::Conditional(l) && b matches LuaType::Conditional(r) && arc_says_eq(l, r))
+        || (a matches LuaType::Mapped(l) && b matches LuaType::Mapped(r) && arc_says_eq(l, r))
 }
 
 pub open spec fn sp_is_boolean(t: LuaType) -> bool { t is BooleanConst || t is Boolean || t is DocBooleanConst }
@@ -188,6 +199,8 @@ pub open spec fn head_err(db: &DbIndex, s: LuaType, c: LuaType, lvl: int) -> boo
     decreases 101 - lvl
 {
     if lvl < 0 || lvl > 100 { false }
+    // an any/unknown expected type is never claimed to be rejected (C16.any-accepts-everything.at-every-depth says the opposite)
+    else if sp_any_or_unknown(s) { false }
     else if sp_like_any(c) || fast_eq_ub(s, c) { false }
     else {
         match sp_escape(db, c) {
